@@ -169,25 +169,36 @@ Definition after_kill (c : kcfg) (e : Z * bool) : bool := kill_passed c (fst e).
 Definition count_after_kill (c : kcfg) (l : list (Z * bool)) : Z := len (filter (after_kill c) l).
 
 (* ------------------------------------------------------------------ correspondence cases *)
+(* observations are records, not tuples: they elaborate much faster in the generated case files *)
+Record wobs := mkW { wo_wd : Z; wo_ns : Z; wo_res : Z }.            (* weekday, ns of day, Work() observed *)
+Record jobs := mkJ { jo_gate : Z; jo_d : Z; jo_sign : Z; jo_res : Z; jo_used : Z }.  (* draws, delay observed, draws used *)
+Record kev := mkE { ke_t : Z; ke_notice : bool }.                    (* a Connect observed *)
+
 Inductive case :=
-| CWork (w : rule) (obs : list (Z * Z * Z))            (* weekday, ns of day, Work() observed *)
+| CWork (w : rule) (obs : list wobs)
 | CRule (w : rule) (is_empty : bool) (ver : Z)
-| CJit (sleep jitter : Z) (obs : list (Z * Z * Z * Z * Z))   (* gate, d, sign, delay observed, draws used *)
+| CJit (sleep jitter : Z) (obs : list jobs)
 | CJitN (sleep n : Z)                                   (* the range wait() passed to Int63n *)
 | CWait (c : kcfg) (dl now : Z) (closing : bool) (now' : Z) (closing' : bool)   (* one wait() *)
-| CKill (c : kcfg) (t0 : Z) (script : list item) (obs : list (Z * bool)).
+| CKill (c : kcfg) (t0 : Z) (script : list item) (obs : list kev).
 
-Definition ev_eqb (a b : Z * bool) : bool := (fst a =? fst b) && Bool.eqb (snd a) (snd b).
+Definition ev_eqb (a : Z * bool) (b : kev) : bool := (fst a =? ke_t b) && Bool.eqb (snd a) (ke_notice b).
+Fixpoint evs_eqb (a : list (Z * bool)) (b : list kev) : bool :=
+  match a, b with
+  | [], [] => true
+  | x :: a', y :: b' => ev_eqb x y && evs_eqb a' b'
+  | _, _ => false
+  end.
 
 Definition check (c : case) : bool :=
   match c with
-  | CWork w obs => forallb (fun o => let '(wd, ns, r) := o in work w wd ns =? r) obs
+  | CWork w obs => forallb (fun o => work w (wo_wd o) (wo_ns o) =? wo_res o) obs
   | CRule w e v => Bool.eqb (empty w) e && (verify w =? v)
   | CJit sl j obs =>
-      forallb (fun o => let '(g, d, sg, r, u) := o in
-                        (jitter_delay sl j g d sg =? r) && (jitter_uses sl j g =? u)) obs
+      forallb (fun o => (jitter_delay sl j (jo_gate o) (jo_d o) (jo_sign o) =? jo_res o) &&
+                        (jitter_uses sl j (jo_gate o) =? jo_used o)) obs
   | CJitN sl n => jitter_range sl =? n
   | CWait c dl now cl now' cl' =>
       let '(n2, c2) := wait_step impl_recheck c dl now cl in (n2 =? now') && Bool.eqb c2 cl'
-  | CKill c t0 sc obs => list_eqb ev_eqb (client impl_recheck c sc t0) obs
+  | CKill c t0 sc obs => evs_eqb (client impl_recheck c sc t0) obs
   end.
